@@ -89,6 +89,7 @@ func (o *Obligation) OK() bool {
 }
 
 type FV struct {
+	mentionMemo  map[string]bool // contractMentions cache
 	keepCounters map[string]bool // non-nil: havocAll preserves every bump: ghost counter NOT in this set (the callee cannot bump it on behalf of verified code)
 	eng  *Engine
 	u    *FuncUnit
